@@ -89,7 +89,10 @@ def _gen_history(rng, length, first_add_after=None, fault=0.25, lean=False):
 
     def add():
         ds = []
-        for _ in range(rng.choice([1, 1, 2, 2, 3]) if st["added"] or not lean else 1):
+        # add_destinations() with no destination at all is a legal (boundary) call: if it is the first
+        # call it still ends the start-up buffering
+        nd = 0 if (not lean and rng.random() < 0.08) else (rng.choice([1, 1, 2, 2, 3]) if st["added"] or not lean else 1)
+        for _ in range(nd):
             r = rng.random()
             if r > fault:
                 b = ["never"]
